@@ -143,6 +143,24 @@ func (i *Inst) RunTeardown(s *TdScript, tw *TraceWriter, rng *rand.Rand) error {
 		}
 		defer stop()
 	}
+	// the client has sent a second RDG_OUT_DATA request under the tunnel's connection identifier: that connection is a
+	// client-facing connection of the tunnel as well, and the tunnel is still the one registry entry it was
+	var out2 *wsraw.LegacyOut
+	if s.Inflight == "reout" {
+		if t.In == nil {
+			return fmt.Errorf("a second OUT request needs the legacy transport")
+		}
+		m := p.Mark()
+		o2, rep2, err := wsraw.DialLegacyOut(i.dialOpts(pc.OpenOpts(), t.Cid))
+		if err != nil || o2 == nil {
+			return fmt.Errorf("second OUT: %v %v", err, rep2)
+		}
+		out2 = o2
+		defer out2.Close()
+		if idx, _ := p.Wait(m, 5*time.Second, func(e gw.Event) bool { return e.Cid == t.Cid && e.Pt == "legacy.out.published" }); idx < 0 {
+			return fmt.Errorf("second OUT was not taken up")
+		}
+	}
 	// the cause
 	closedByClient := map[string]bool{}
 	switch {
@@ -233,6 +251,9 @@ func (i *Inst) RunTeardown(s *TdScript, tw *TraceWriter, rng *rand.Rand) error {
 	} else {
 		check("in", t.In.WaitEOF)
 		check("out", t.Out.WaitEOF)
+		if out2 != nil {
+			check("out2", out2.WaitEOF)
+		}
 	}
 	gaugesBack, goroutinesBack := false, false
 	for {
@@ -259,6 +280,9 @@ func (i *Inst) RunTeardown(s *TdScript, tw *TraceWriter, rng *rand.Rand) error {
 	causeLabel := s.Cause
 	if s.Inflight == "stalled" {
 		causeLabel += "@stalled"
+	}
+	if s.Inflight == "reout" {
+		causeLabel += "@reout"
 	}
 	tw.Line(M{"ev": "teardown", "script": s.ID, "transport": s.Transport, "point": s.Point, "cause": causeLabel, "inflight": s.Inflight, "hadHost": hadHost,
 		"hostClosed": hostClosed, "connsClosed": connsClosed, "loopExited": loopIdx >= 0, "relayDone": relayDone, "unregistered": unregIdx >= 0,
